@@ -59,6 +59,23 @@ def main():
             """True if directed item number i belongs to this shard."""
             return i % H.NSHARDS == a.shard
 
+    cover_dir = os.environ.get("VMON_COVER")
+    covered = set()
+    if cover_dir:
+        # reach report (tools/reach.sh): which source lines of optyx a check executes at all.  LINE events of sys.monitoring, each
+        # location disabled after its first hit, so the cost is one callback per line; tool id COVERAGE is not the failpoints' id.
+        mon = sys.monitoring
+
+        def _line(code, lineno):
+            fn = code.co_filename
+            if fn.startswith(src):
+                covered.add((fn[len(src) + 1:], lineno))
+            return mon.DISABLE
+
+        mon.use_tool_id(mon.COVERAGE_ID, "vmon-reach")
+        mon.register_callback(mon.COVERAGE_ID, mon.events.LINE, _line)
+        mon.set_events(mon.COVERAGE_ID, mon.events.LINE)
+
     try:
         if a.replay:
             with open(a.replay) as f:
@@ -70,6 +87,11 @@ def main():
         rec.inconclusive.append("worker exception: " + traceback.format_exc()[-1500:])
     if H.LP_TIME_LIMITED[0]:
         rec.noncomp["linprog-hit-the-harness-time-limit"] += H.LP_TIME_LIMITED[0]
+    if cover_dir:
+        sys.monitoring.set_events(sys.monitoring.COVERAGE_ID, 0)
+        os.makedirs(cover_dir, exist_ok=True)
+        with open(os.path.join(cover_dir, f"{prop}-{a.tier}-{a.seed}-{a.shard}.json"), "w") as f:
+            json.dump(sorted(covered), f)
     out = rec.dump()
     out["info"] = mod.info(a.tier)
     out["unraisable"] = unraisable[:5]
